@@ -154,7 +154,7 @@ def main():
         shutil.copytree(os.path.join(REPO, "processscheduler"), os.path.join(mdir, "processscheduler"), ignore=shutil.ignore_patterns("__pycache__"))
         with open(os.path.join(mdir, "processscheduler", fn), "w") as f:
             f.write(ast.unparse(tree))
-        env = dict(os.environ, PYTHONPATH=mdir)
+        env = dict(os.environ, PYTHONPATH=mdir, VERIF_NO_EVIDENCE="1")
         rec = {"k": k, "file": fn, "where": where, "line": line, "kind": kind, "mutation": m.done, "source_line": src.splitlines()[line - 1].strip()[:120], "checks": {}}
         imp = subprocess.run(["/venv/bin/python", "-c", "import processscheduler"], env=env, capture_output=True, text=True)
         if imp.returncode:
@@ -174,7 +174,7 @@ def main():
         shutil.rmtree(mdir, ignore_errors=True)
         res.write(json.dumps(rec) + "\n")
         res.flush()
-        print(json.dumps({k2: rec[k2] for k2 in ("k", "file", "where", "mutation", "verdict")}), flush=True)
+        print(json.dumps({k2: rec[k2] for k2 in ("k", "file", "where", "line", "mutation", "source_line", "verdict")}), flush=True)
 
 
 if __name__ == "__main__":
